@@ -5,5 +5,5 @@ p=$n; [ -f "/verif/refactors/$n/patch.diff" ] && p=/verif/refactors/$n/patch.dif
 d=$(mktemp -d /tmp/rf-XXXX); git -C /repo archive HEAD src Cargo.toml benches tests | tar -x -C $d; cp /repo/Cargo.lock $d/
 (cd $d && git init -q . 2>/dev/null && git apply --whitespace=nowarn $p) || { echo "patch failed"; rm -rf $d; exit 3; }
 cd /verif
-for c in "$@"; do BP_REPO=$d ./check $c | grep -vE "^VIOLATION|^  at " | cut -c1-${W:-330}; done
+for c in "$@"; do BP_EVIDENCE_DIR=$d/evidence BP_REPO=$d ./check $c | grep -vE "^VIOLATION|^  at " | cut -c1-${W:-330}; done
 rm -rf $d
